@@ -22,7 +22,7 @@ Your task: make ONE realistic change to the project's source that BREAKS this pr
 
 Deliver in {wt}/seeded/ (create the directory):
   - patch.diff : `git diff` of your source change only (not the seeded/ directory); it must apply with `git apply` to a clean checkout of the same commit
-  - demo.py    : uses only the public API; prints PASS and exits 0 on the UNMODIFIED code, prints FAIL (with what differed) and exits 1 with your change applied. Verify both (use `git stash` / `git apply -R` and re-apply).
+  - demo.py    : uses only the public API; prints PASS and exits 0 on the UNMODIFIED code, prints FAIL (with what differed) and exits 1 with your change applied. Verify both (save your change with `git diff > /tmp/<yourkey>.diff`, undo it with `git apply -R`, re-apply with `git apply`; NEVER use `git stash`: the stash is shared by all worktrees of the repository and other people work in sibling worktrees).
   - meta.json  : {{"property": "{p['id']}", "summary": "...what changed and why it breaks the property...", "needs_to_manifest": "...exactly what grammar/input/sequence is needed...", "files_changed": [...], "tests_pass": true}}
 Leave your change APPLIED in the worktree when you finish. In your final message report: the change, what it needs to manifest, and the commands you ran with their outcomes. If, while probing the UNMODIFIED code, you notice behaviour that already violates the property, list it separately at the end of your report (with a minimal reproduction).'''
 open(f'/tmp/prompt_{key}.txt', 'w').write(text)
